@@ -62,6 +62,8 @@ func (c *Case) line() string {
 		return "expr " + wireOf(c.X)
 	case "eqn":
 		return "eqn " + wireOf(c.E)
+	case "c06":
+		return "c06 " + lib.HexF(c.Text)
 	}
 	return "text " + lib.HexF(c.Text)
 }
@@ -78,9 +80,9 @@ func parseCaseLine(line string) (*Case, error) {
 	case "eqn":
 		e, err := parseWireEqn(line[i+1:])
 		return &Case{Kind: "eqn", E: e, Stream: "corpus"}, err
-	case "text":
+	case "text", "c06":
 		b, err := lib.UnhexF(strings.TrimSpace(line[i+1:]))
-		return &Case{Kind: "text", Text: b, Stream: "corpus"}, err
+		return &Case{Kind: line[:i], Text: b, Stream: "corpus"}, err
 	}
 	return nil, fmt.Errorf("bad case kind")
 }
@@ -133,6 +135,12 @@ func main() {
 		return
 	}
 	full := *tier == "thorough"
+	if *prop == "C06jp" && *corpus == "" {
+		// the corpus of the sub-check, when there is one, has the default name
+		if _, err := os.Stat("corpus/C06jp.txt"); err == nil {
+			*corpus = "corpus/C06jp.txt"
+		}
+	}
 	var fatal atomic.Value
 	run := func(produce func(emit func(Case))) {
 		cases := make(chan []Case, 64)
@@ -186,6 +194,34 @@ func main() {
 	on := func(name string) bool {
 		sel := os.Getenv("VERIF_STREAMS")
 		return sel == "" || strings.Contains(","+sel+",", ","+name+",")
+	}
+	if *prop == "C06jp" {
+		run(func(emit func(Case)) {
+			if *corpus != "" {
+				if data, err := os.ReadFile(*corpus); err == nil {
+					for _, line := range strings.Split(string(data), "\n") {
+						line = strings.TrimSpace(line)
+						if line == "" || strings.HasPrefix(line, "#") {
+							continue
+						}
+						if b, err := lib.UnhexF(strings.Fields(line)[0]); err == nil {
+							emit(Case{Kind: "c06", Text: b, Stream: "corpus"})
+						}
+					}
+				}
+			}
+			streamC06(emit, lib.NewRng(*seed^0xc06), full)
+		})
+		if e := fatal.Load(); e != nil {
+			fmt.Fprintln(os.Stderr, "harness failure:", e)
+			os.Exit(3)
+		}
+		rep.Rule = "malformed text through jp.ParseString, jp.Parse, jp.NewScript, jp.NewFilter and their Must* variants (and jp.MustParseEquation), each call under recover, each text under a 2 s watchdog: every string up to length 3 (4) over the grammar's alphabet, bare and inside filter/script brackets; the complete single-byte edit neighbourhood of valid texts; seeded random byte strings of length <= 64 incl. NUL and bytes >= 0x80. Oracle: no escaped panic, no runtime fault as error or panic value, no hang, Must* variants panic exactly with the error of the plain variant. Tie: accept/reject and the printed form of what was read equal the Lean parser model; corpus/C06jp.txt holds raw texts in hex; duplicates dropped by 64-bit hash; distinct_nontrivial counts texts of length >= 2"
+		if err := rep.Write(*outPath); err != nil {
+			fmt.Fprintln(os.Stderr, err)
+			os.Exit(3)
+		}
+		return
 	}
 	// phase 1: objects
 	run(func(emit func(Case)) {
@@ -366,7 +402,14 @@ func supervise() int {
 					where = where[:i] // the arguments are addresses
 				}
 				mu.Lock()
-				rp.Add(lib.Finding{Kind: "violation", Class: "fatal:" + strings.ReplaceAll(strings.TrimPrefix(msg, "fatal error: "), " ", "-"),
+				cls := "fatal:"
+				if *prop == "C06jp" {
+					cls = "panic:fatal:" // not recoverable: worse than an escaped panic
+					if timedOut {
+						cls = "hang:process:"
+					}
+				}
+				rp.Add(lib.Finding{Kind: "violation", Class: cls + strings.ReplaceAll(strings.TrimPrefix(msg, "fatal error: "), " ", "-"),
 					What:   "the code under test kills the process (" + msg + ") in " + where,
 					Replay: map[string]any{"case": l, "stream": "supervisor"}})
 				mu.Unlock()
@@ -502,7 +545,11 @@ func canonFloats(b []byte) []byte {
 		out = append(out, b[:i]...)
 		f, _ := strconv.ParseFloat(string(b[i+3:i+3+j]), 64)
 		out = append(out, jpFloat(f)...)
+		lit := string(b[i+3 : i+3+j])
 		b = b[i+j+6:]
+		if !strings.ContainsAny(lit, ".eNI") && bytes.HasPrefix(b, []byte(".0")) {
+			b = b[2:] // the model's own `.0` after a literal such as `1E` (read as 0 by ParseFloat)
+		}
 	}
 }
 
@@ -600,7 +647,7 @@ func prepare(c *Case) *work {
 		w.add("eparse\t" + lib.HexF(goText(w.sEq)))
 		w.add("eparse\t" + lib.HexF(goText(w.sSc)))
 		w.add("fparse\t" + lib.HexF(goText(w.sFl)))
-	case "text":
+	case "text", "c06":
 		hx := lib.HexF(c.Text)
 		w.add("xparse\t" + hx)
 		w.add("eparse\t" + hx)
@@ -658,6 +705,9 @@ func (w *work) judge() {
 		w.judgeEqn()
 	case "text":
 		w.judgeText()
+	case "c06":
+		w.judgeText()
+		w.judgeC06()
 	}
 }
 
